@@ -14,6 +14,8 @@ mod semantic_decl;
 mod signature;
 mod traits;
 mod r#type;
+#[cfg(feature = "verif")]
+mod verif;
 
 use std::sync::Arc;
 
